@@ -20,6 +20,10 @@
 //	[fffd-alias]      some pattern contains a real U+FFFD and the text is not valid UTF-8
 //	                  (known C05 defect leaking into Replace)
 //
+// The engine rand/mixed-weak (patterns made of lone bytes of multi-byte runes, which
+// may occur inside a valid rune of the text) judges a result under the two readings
+// of "occurrence" (byte-wise / unit-aligned); see mixedCase.
+//
 // strength.go adds histories and sizes (rebuild stages, interleaved tries, kept
 // results, reused text buffers, long patterns, big texts, wide nodes, cold start);
 // their signature suffixes name the situation in which the call was made.
@@ -100,6 +104,20 @@ func build(c *ev.Case, pats []string) *sut {
 	}
 	c.Logf("BuildFailureLinks()")
 	c.Add("tries_built", 1)
+	if len(s.dpats) > 0 {
+		nEmpty := 0
+		for _, p := range pats {
+			if p == "" {
+				nEmpty++
+			}
+		}
+		if nEmpty > 0 {
+			c.Add("sets_with_an_empty_pattern_among_others", 1)
+		}
+		if len(pats)-nEmpty > len(s.dpats) {
+			c.Add("sets_with_a_pattern_inserted_twice", 1)
+		}
+	}
 	if s.hasFFFD {
 		c.Add("sets_with_real_U+FFFD", 1)
 	}
@@ -171,6 +189,39 @@ func needsLookback(occs []occ) bool {
 	}
 	for i := 0; i+1 < len(sc); i++ {
 		if sc[i].b > sc[i+1].a {
+			return true
+		}
+	}
+	return false
+}
+
+// swallowsSeveral says whether, after that single forward pass, some interval
+// overlaps two or more earlier intervals that are disjoint from one another (the
+// "long occurrence ending late that starts before several earlier, mutually
+// disjoint occurrences" of the quantifier: one step back is not enough, the step
+// back has to cascade). Input classification only, never a verdict.
+func swallowsSeveral(occs []occ) bool {
+	type iv struct{ a, b int }
+	sc := make([]iv, len(occs))
+	for i, o := range occs {
+		sc[i] = iv{o.start, o.stop}
+	}
+	for i := 0; i < len(sc)-1; {
+		if sc[i].b > sc[i+1].a {
+			if sc[i].b < sc[i+1].b {
+				sc[i].b = sc[i+1].b
+			}
+			if sc[i].a > sc[i+1].a {
+				sc[i].a = sc[i+1].a
+			}
+			sc = append(sc[:i+1], sc[i+2:]...)
+		} else {
+			i++
+		}
+	}
+	// the ends are non-decreasing, so the earlier intervals that reach into sc[j] are the ones just before it
+	for j := 2; j < len(sc); j++ {
+		if sc[j-1].b > sc[j].a && sc[j-2].b > sc[j].a && sc[j-2].b <= sc[j-1].a {
 			return true
 		}
 	}
@@ -258,6 +309,24 @@ func (s *sut) checkText(text string, repls []string, masks []rune) bool {
 	}
 	if lookback {
 		c.Add("texts_needing_merge_lookback", 1)
+		if swallowsSeveral(occs) {
+			c.Add("texts_where_a_late_occurrence_swallows_several_earlier_disjoint_ones", 1)
+		}
+	}
+	if text == "" {
+		c.Add("texts_empty", 1)
+	}
+	if len(regs) > 0 {
+		first, last := regs[0], regs[len(regs)-1]
+		if first.start == 0 {
+			c.Add("texts_with_region_at_text_start", 1)
+		}
+		if last.stop == len(text) {
+			c.Add("texts_with_region_at_text_end", 1)
+		}
+		if first.start == 0 && first.stop == len(text) {
+			c.Add("texts_covered_completely", 1)
+		}
 	}
 	var overlap, nested, touching bool
 	for i := range occs {
@@ -303,6 +372,23 @@ func (s *sut) checkText(text string, repls []string, masks []rune) bool {
 		want := expectedMask(text, covered, mask)
 		c.Logf("ReplaceWithMask(%+q, %+q) -> %+q (expected %+q)", text, mask, out, want)
 		c.Add("mask_calls", 1)
+		if len(regs) > 0 {
+			switch utf8.RuneLen(mask) {
+			case 1:
+				c.Add("mask_calls_with_occurrence_mask_of_1_byte", 1)
+			case 2:
+				c.Add("mask_calls_with_occurrence_mask_of_2_bytes", 1)
+			case 3:
+				c.Add("mask_calls_with_occurrence_mask_of_3_bytes", 1)
+			case 4:
+				c.Add("mask_calls_with_occurrence_mask_of_4_bytes", 1)
+			}
+			if len(want) > len(text) {
+				c.Add("mask_calls_result_longer_than_text", 1)
+			} else if len(want) < len(text) {
+				c.Add("mask_calls_result_shorter_than_text", 1)
+			}
+		}
 		if out != want {
 			if utf8.RuneCountInString(out) != utf8.RuneCountInString(text) {
 				c.Failf("mask-rune-count"+suffix, "patterns %s: ReplaceWithMask(%+q, %+q) = %+q has %d runes, the text has %d (expected %+q)", q(s.pats), text, mask, out, utf8.RuneCountInString(out), utf8.RuneCountInString(text), want)
@@ -325,6 +411,19 @@ func (s *sut) checkText(text string, repls []string, masks []rune) bool {
 		c.Logf("Replace(%+q, %+q) -> %+q (uncovered stretches %s, %d regions)", text, repl, out, q(unc), len(regs))
 		c.Add("replace_calls", 1)
 		disjoint := repl != "" && !strings.Contains(text, repl[:1])
+		if len(regs) > 0 {
+			if repl != "" && !utf8.ValidString(repl) {
+				c.Add("replace_calls_with_occurrence_replacement_not_valid_utf8", 1)
+			}
+			if len(repl) < 64 && len(occurrences(s.dpats, repl)) > 0 {
+				// the replacement itself contains a pattern: the result must not be scanned again
+				c.Add("replace_calls_with_occurrence_replacement_contains_a_pattern", 1)
+			}
+			if repl == "" && len(text) <= 64 && len(occurrences(s.dpats, strings.Join(unc, ""))) > 0 {
+				// removing the regions brings the pieces of a pattern together
+				c.Add("replace_calls_empty_replacement_result_contains_a_pattern", 1)
+			}
+		}
 		switch {
 		case repl == "":
 			c.Add("replace_calls_empty_replacement", 1)
@@ -703,13 +802,33 @@ func invalidCase(c *ev.Case) {
 // mixedCase: patterns contain lone bytes taken from the encodings of the runes the
 // text is made of (é = c3 a9, 世 = e4 b8 96, U+FFFD = ef bf bd), so a byte-wise
 // occurrence may lie INSIDE a valid rune of the text. Whether such an occurrence
-// counts is not settled by the statement, so only what both readings agree on is
-// demanded: no panic; ReplaceWithMask preserves the number of decoding units;
-// a unit none of whose bytes lies in any byte-wise occurrence is unchanged; a unit
-// that is completely covered by an occurrence whose both ends fall on unit
-// boundaries is masked; Replace keeps every byte that lies in no occurrence.
-var mixedTextRunes = []string{"a", "b", "é", "世", "\uFFFD", "\xa9", "\xbf", "\xef"}
-var mixedPatPieces = []string{"a", "b", "\xc3", "\xa9", "\xe4", "\xb8", "\x96", "\xef", "\xbf", "\xbd", "é", "世", "\uFFFD"}
+// counts is not settled by the statement; there are two readings of "occurrence":
+//
+//	A  every byte-wise occurrence counts
+//	B  only an occurrence whose both ends fall on decoding-unit boundaries of the
+//	   text counts (these are exactly the occurrences a unit-wise matcher sees: the
+//	   units of text[a:b] between two unit boundaries are the units of the pattern)
+//
+// First what both readings agree on is demanded unit by unit (no panic;
+// ReplaceWithMask preserves the number of decoding units; a unit none of whose bytes
+// lies in any byte-wise occurrence is unchanged; a unit completely covered by
+// B-occurrences is masked; Replace keeps every byte that lies in no occurrence).
+// Then the whole statement is demanded under at least one reading: the result of
+// ReplaceWithMask must be the expected text of reading A or of reading B, the
+// result of Replace must parse as u0 r^k1 u1 … against the regions of reading A or
+// of reading B. A result that is wrong under both readings violates the statement
+// whichever reading is meant. Where the readings coincide (every byte-wise
+// occurrence is unit-aligned) this is the full oracle, and it is the only place
+// where it is applied to patterns that end or start in a truncated multi-byte
+// sequence (a lead byte 0xC2..0xF4 without its continuation bytes).
+// (© ¿ ï are U+00A9 U+00BF U+00EF: the runes whose code point is the value of one
+// of the lone bytes; a lone byte must never be taken for its Latin-1 namesake)
+var mixedTextRunes = []string{"a", "b", "é", "世", "\uFFFD", "\xa9", "\xbf", "\xef", "\xc3", "\xe4\xb8", "©", "¿", "ï"}
+var mixedPatPieces = []string{"a", "b", "\xc3", "\xa9", "\xe4", "\xb8", "\x96", "\xef", "\xbf", "\xbd", "é", "世", "\uFFFD", "©", "¿", "ï"}
+var mixedMasks = []rune{'*', '*', '█', '😀', 0, 'é'}
+var mixedRepls = []string{"#", "#", "<*>", "█", "", "\xc3", "a"}
+
+func isTruncatedLead(b byte) bool { return b >= 0xC2 && b <= 0xF4 }
 
 func mixedCase(c *ev.Case) {
 	rng := c.Rng
@@ -731,13 +850,10 @@ func mixedCase(c *ev.Case) {
 			tb.WriteString(mixedTextRunes[rng.Intn(len(mixedTextRunes))])
 		}
 		text := tb.String()
+		mask := mixedMasks[rng.Intn(len(mixedMasks))]
+		repl := mixedRepls[rng.Intn(len(mixedRepls))]
+		s.hash = ev.Mix(s.hash, ev.HashString(text), 't')
 		occs := occurrences(s.dpats, text)
-		covered := make([]bool, len(text))
-		for _, o := range occs {
-			for i := o.start; i < o.stop; i++ {
-				covered[i] = true
-			}
-		}
 		// decoding units
 		type unit struct{ a, b int }
 		var units []unit
@@ -748,19 +864,25 @@ func mixedCase(c *ev.Case) {
 			i += sz
 			boundary[i] = true
 		}
-		aligned := make([]bool, len(text)) // byte lies in an occurrence that starts and ends on unit boundaries
+		var occsB []occ // reading B: the occurrences that start and end on unit boundaries
 		for _, o := range occs {
 			if boundary[o.start] && boundary[o.stop] {
-				for i := o.start; i < o.stop; i++ {
-					aligned[i] = true
-				}
+				occsB = append(occsB, o)
 			}
 		}
+		covered, regsA, uncA := analyse(text, occs)
+		aligned, regsB, uncB := analyse(text, occsB) // byte lies in a B-occurrence
+		agree := len(occs) == len(occsB)
 		var got string
-		if !c.Guard("ReplaceWithMask", func() { got = s.t.ReplaceWithMask(text, '*') }) {
+		if c.Logging() {
+			c.Witness = map[string]string{"patterns": q(pats), "text": fmt.Sprintf("%+q", text), "mask": fmt.Sprintf("%+q", mask), "replacement": fmt.Sprintf("%+q", repl)}
+			c.Logf("calling ReplaceWithMask(%+q, %+q)", text, mask)
+		}
+		if !c.Guard("ReplaceWithMask", func() { got = s.t.ReplaceWithMask(text, mask) }) {
 			return
 		}
-		c.Logf("patterns %s: ReplaceWithMask(%+q) -> %+q", q(pats), text, got)
+		ms := string(mask)
+		c.Logf("patterns %s: ReplaceWithMask(%+q, %+q) -> %+q", q(pats), text, mask, got)
 		// compare unit by unit
 		gi := 0
 		for _, u := range units {
@@ -777,23 +899,23 @@ func mixedCase(c *ev.Case) {
 			switch {
 			case !anyCov:
 				if !strings.HasPrefix(got[gi:], orig) {
-					c.Failf("mixed-mask-untouched-unit-changed", "patterns %s: ReplaceWithMask(%+q) = %+q: the unit %+q at byte %d lies in no occurrence but was changed", q(pats), text, got, orig, u.a)
+					c.Failf("mixed-mask-untouched-unit-changed", "patterns %s: ReplaceWithMask(%+q, %+q) = %+q: the unit %+q at byte %d lies in no occurrence but was changed", q(pats), text, mask, got, orig, u.a)
 					return
 				}
 				gi += len(orig)
 			case allAligned:
-				if !strings.HasPrefix(got[gi:], "*") {
-					c.Failf("mixed-mask-covered-unit-kept", "patterns %s: ReplaceWithMask(%+q) = %+q: the unit %+q at byte %d is covered by a unit-aligned occurrence but was not masked", q(pats), text, got, orig, u.a)
+				if !strings.HasPrefix(got[gi:], ms) {
+					c.Failf("mixed-mask-covered-unit-kept", "patterns %s: ReplaceWithMask(%+q, %+q) = %+q: the unit %+q at byte %d is covered by a unit-aligned occurrence but was not masked", q(pats), text, mask, got, orig, u.a)
 					return
 				}
-				gi++
+				gi += len(ms)
 			default: // partly covered, or covered only by a misaligned occurrence: either outcome
-				if strings.HasPrefix(got[gi:], "*") && orig != "*" {
-					gi++
+				if strings.HasPrefix(got[gi:], ms) && orig != ms {
+					gi += len(ms)
 				} else if strings.HasPrefix(got[gi:], orig) {
 					gi += len(orig)
 				} else {
-					c.Failf("mixed-mask-unit-garbled", "patterns %s: ReplaceWithMask(%+q) = %+q: at the unit %+q (byte %d) the result is neither the unit nor the mask", q(pats), text, got, orig, u.a)
+					c.Failf("mixed-mask-unit-garbled", "patterns %s: ReplaceWithMask(%+q, %+q) = %+q: at the unit %+q (byte %d) the result is neither the unit nor the mask", q(pats), text, mask, got, orig, u.a)
 					return
 				}
 			}
@@ -802,15 +924,27 @@ func mixedCase(c *ev.Case) {
 			}
 		}
 		if gi != len(got) {
-			c.Failf("mixed-mask-rune-count", "patterns %s: ReplaceWithMask(%+q) = %+q does not consist of one unit-or-mask per decoding unit of the text (%d units)", q(pats), text, got, len(units))
+			c.Failf("mixed-mask-rune-count", "patterns %s: ReplaceWithMask(%+q, %+q) = %+q does not consist of one unit-or-mask per decoding unit of the text (%d units)", q(pats), text, mask, got, len(units))
 			return
 		}
+		// the whole statement under at least one reading
+		wantA, wantB := expectedMask(text, covered, mask), expectedMask(text, aligned, mask)
+		if got != wantA && got != wantB {
+			if agree {
+				c.Failf("mixed-mask-result", "patterns %s: ReplaceWithMask(%+q, %+q) = %+q, expected %+q (every byte-wise occurrence is unit-aligned)", q(pats), text, mask, got, wantB)
+			} else {
+				c.Failf("mixed-mask-neither-reading", "patterns %s: ReplaceWithMask(%+q, %+q) = %+q is neither %+q (every byte-wise occurrence counts) nor %+q (only unit-aligned occurrences count)", q(pats), text, mask, got, wantA, wantB)
+			}
+			return
+		}
+		c.Add("mask_calls", 1)
 		var rep string
-		if !c.Guard("Replace", func() { rep = s.t.Replace(text, "#") }) {
+		c.Logf("calling Replace(%+q, %+q)", text, repl)
+		if !c.Guard("Replace", func() { rep = s.t.Replace(text, repl) }) {
 			return
 		}
-		c.Logf("Replace(%+q, \"#\") -> %+q", text, rep)
-		// every byte outside all occurrences is kept, in order (as a subsequence outside the '#')
+		c.Logf("Replace(%+q, %+q) -> %+q", text, repl, rep)
+		// every byte outside all occurrences is kept, in order (as a subsequence)
 		ri := 0
 		for i := 0; i < len(text); i++ {
 			if covered[i] {
@@ -820,19 +954,69 @@ func mixedCase(c *ev.Case) {
 				ri++
 			}
 			if ri >= len(rep) {
-				c.Failf("mixed-replace-lost-byte", "patterns %s: Replace(%+q) = %+q lost byte %d (%+q), which lies in no occurrence", q(pats), text, rep, i, text[i:i+1])
+				c.Failf("mixed-replace-lost-byte", "patterns %s: Replace(%+q, %+q) = %+q lost byte %d (%+q), which lies in no occurrence", q(pats), text, repl, rep, i, text[i:i+1])
 				return
 			}
 			ri++
 		}
+		if !parses(rep, uncA, regsA, repl) && !parses(rep, uncB, regsB, repl) {
+			if agree {
+				c.Failf("mixed-replace-parse", "patterns %s: Replace(%+q, %+q) = %+q is not u0 r^k1 u1 … with uncovered stretches %s (every byte-wise occurrence is unit-aligned; e.g. %+q)", q(pats), text, repl, rep, q(uncB), strings.Join(uncB, repl))
+			} else {
+				c.Failf("mixed-replace-neither-reading", "patterns %s: Replace(%+q, %+q) = %+q parses neither against the uncovered stretches %s (every byte-wise occurrence counts) nor against %s (only unit-aligned occurrences count)", q(pats), text, repl, rep, q(uncA), q(uncB))
+			}
+			return
+		}
+		c.Add("replace_calls", 1)
 		c.Add("mixed_texts", 1)
 		if len(occs) > 0 {
 			c.Add("mixed_texts_with_occurrence", 1)
 		}
+		if !agree {
+			c.Add("mixed_texts_where_the_readings_differ", 1)
+			if len(occsB) > 0 {
+				c.Add("mixed_texts_where_the_readings_differ_with_aligned_occurrence", 1)
+			}
+		}
+		var broken, leadEnd, leadStart int64 // B-occurrences that are not valid UTF-8 / end / start in a truncated lead byte
+		for _, o := range occsB {
+			if !utf8.ValidString(o.pat) {
+				broken++
+			}
+			if isTruncatedLead(text[o.stop-1]) {
+				leadEnd++
+			}
+			if isTruncatedLead(text[o.start]) && !utf8.FullRuneInString(o.pat) {
+				leadStart++
+			}
+		}
+		// a lone byte of the text (its own decoding unit) whose value is the code point of a rune in some pattern
+		namesake := false
+		for _, u := range units {
+			if u.b-u.a == 1 && text[u.a] >= utf8.RuneSelf && hasRune(s.dpats, rune(text[u.a])) {
+				namesake = true
+			}
+		}
+		if namesake {
+			c.Add("mixed_texts_with_lone_byte_whose_latin1_rune_is_in_a_pattern", 1)
+		}
+		if agree && broken > 0 {
+			c.Add("mixed_texts_full_oracle_with_occurrence_of_a_pattern_that_is_not_valid_utf8", 1)
+		}
+		c.Add("mixed_aligned_occurrences_ending_in_a_truncated_lead_byte", leadEnd)
+		c.Add("mixed_aligned_occurrences_that_are_a_truncated_sequence_from_the_start", leadStart)
+		for _, rg := range regsB {
+			if isTruncatedLead(text[rg.stop-1]) {
+				c.Add("mixed_regions_ending_in_a_truncated_lead_byte", 1)
+				if repl != "" {
+					c.Add("mixed_regions_ending_in_a_truncated_lead_byte_nonempty_replacement", 1)
+				}
+			}
+		}
 	}
 	c.Distinct(s.hash)
 	if c.WantSample() {
-		c.Sample(fmt.Sprintf("mixed: patterns with lone bytes of multi-byte runes %s against texts of those runes; unit-wise weak oracle", q(pats)))
+		c.Sample(fmt.Sprintf("mixed: patterns with lone bytes of multi-byte runes %s against texts of those runes; unit-wise common ground, then the full statement under the byte-wise or the unit-aligned reading of 'occurrence'", q(pats)))
 	}
 }
 
@@ -841,6 +1025,7 @@ func main() {
 	r.Rule("one case = one generated pattern list inserted into a real Trie + BuildFailureLinks, then 4-5 texts (random, overlap constructions, arbitrary bytes; or directed constructions: long pattern over earlier disjoint short ones, touching/overlapping chains, nested triples), each with 2 replacements (disjoint alphabet, empty, colliding, invalid bytes) and 1-2 mask runes of 1-4 bytes; distinct = hash of (pattern list, texts); non-trivial = at least one non-empty pattern; " +
 		"added histories (strength.go): staged = one trie grown over 2-4 Insert*+Build stages with the same (text, method, argument) calls repeated after every build, stages without a query, Build twice, queries on the never-built empty zero value; interleave = 2-3 tries differing in one pattern used alternately on one goroutine, successive calls differing in one ingredient, texts optionally views of one reused byte buffer; big/* = patterns up to 70001 bytes (262145 thorough), texts up to 512 KiB (3 MiB thorough) with an occurrence across every multiple of 16 KiB, nodes with up to 2049 children (8193 thorough); cold-start = one fresh process per case whose first query uses the never-built zero value, the mask U+0000 or the empty replacement")
 	r.Assume("oracle = byte-wise brute-force occurrences over the distinct non-empty inserted patterns -> covered bytes -> maximal covered regions; patterns are valid UTF-8 (so every occurrence is rune-aligned), except in the engine rand/invalid-bytes where patterns and texts consist of ASCII and of bytes that can never belong to a valid sequence, so that every byte is its own decoding unit")
+	r.Assume("rand/mixed-weak: patterns made of lone bytes of multi-byte runes may occur byte-wise inside a valid rune of the text; the statement does not say whether such an occurrence counts, so a result is accepted iff the whole statement holds under the byte-wise reading or under the unit-aligned reading of 'occurrence' (the two coincide when every byte-wise occurrence starts and ends on decoding-unit boundaries; then this is the full oracle, also for patterns that start or end in a truncated multi-byte sequence)")
 	r.Assume("a returned string is the result only if it keeps the bytes it had when it was returned: results of earlier calls are compared again after later calls (kept-result-changed); a text handed over as a view of a caller buffer is rewritten only between calls and its result is judged before the rewrite; the empty pattern set includes the zero-value Trie on which BuildFailureLinks was never called")
 	r.Assume("Replace is accepted iff the result parses as u0 r^k1 u1 … r^km um with 1<=ki<=ni (all parses tried by a DP); mask runes are valid runes")
 
@@ -884,7 +1069,30 @@ func main() {
 	r.Require("texts_without_occurrence", 1000)
 	r.Require("occurrences_containing_invalid_bytes", 5000)
 	r.Require("mixed_texts_with_occurrence", 5000)
+	r.Require("mixed_texts_full_oracle_with_occurrence_of_a_pattern_that_is_not_valid_utf8", 2000)
+	r.Require("mixed_texts_where_the_readings_differ_with_aligned_occurrence", 1500)
+	r.Require("mixed_regions_ending_in_a_truncated_lead_byte_nonempty_replacement", 1500)
+	r.Require("mixed_aligned_occurrences_that_are_a_truncated_sequence_from_the_start", 1500)
+	r.Require("mixed_texts_with_lone_byte_whose_latin1_rune_is_in_a_pattern", 1500)
 	r.Require("rebuilds", 2000)
+	// input classes of "every pattern set", "every text", every replacement, every mask
+	r.Require("empty_pattern_sets", 300)
+	r.Require("sets_with_an_empty_pattern_among_others", 3000)
+	r.Require("sets_with_a_pattern_inserted_twice", 20000)
+	r.Require("texts_empty", 3000)
+	r.Require("texts_with_region_at_text_start", 100000)
+	r.Require("texts_with_region_at_text_end", 100000)
+	r.Require("texts_covered_completely", 50000)
+	r.Require("texts_where_a_late_occurrence_swallows_several_earlier_disjoint_ones", 20000)
+	r.Require("mask_calls_with_occurrence_mask_of_1_byte", 100000)
+	r.Require("mask_calls_with_occurrence_mask_of_2_bytes", 30000)
+	r.Require("mask_calls_with_occurrence_mask_of_3_bytes", 50000)
+	r.Require("mask_calls_with_occurrence_mask_of_4_bytes", 50000)
+	r.Require("mask_calls_result_longer_than_text", 100000)
+	r.Require("mask_calls_result_shorter_than_text", 50000)
+	r.Require("replace_calls_with_occurrence_replacement_not_valid_utf8", 30000)
+	r.Require("replace_calls_with_occurrence_replacement_contains_a_pattern", 40000)
+	r.Require("replace_calls_empty_replacement_result_contains_a_pattern", 400)
 	r.Require("staged_same_call_repeated_first_after_rebuild", 10000)
 	r.Require("staged_same_call_after_rebuild_with_changed_occurrences", 3000)
 	r.Require("staged_observations_of_never_built_empty_trie", 1000)
